@@ -131,7 +131,11 @@ class Engine(GenericConcreteEngine[Callable[..., Any]]):
                     return tree, commutator.done, commutator.messages
                 else:
                     upstream, done, messages = self.backtrack_unary(commutator.first, target, preferred)
-                    if upstream is not target:
+                    if upstream is not target or (done and commutator.second is not tree.operation):
+                        # Even if the upstream tree is unchanged (the
+                        # insertion there was a no-op), a successful
+                        # commutation may have replaced or dropped the
+                        # existing operation.
                         result = commutator.second._finish_apply(upstream)
                     else:
                         result = tree
